@@ -153,7 +153,6 @@ func (s *state) walk(node ast.Node) {
 	case *ast.CallNode:
 		s.visitCall(node)
 	case *ast.LetValueNode:
-		// the value is translated before the variable is in scope
 		var value = s.block(node.Expr)
 		s.jsln("var ", s.scope.makevar(node.Name), " = ", value, ";")
 	case *ast.LetContentNode:
@@ -403,14 +402,19 @@ func (s *state) visitFunction(node *ast.FunctionNode) {
 		return
 	}
 
+	var loopVar string
+	if len(node.Args) == 1 {
+		if ref, ok := node.Args[0].(*ast.DataRefNode); ok {
+			loopVar = ref.Key
+		}
+	}
 	switch node.Name {
 	case "isFirst":
-		// TODO: Add compile-time check that this is only called on loop variable.
-		s.js("(", s.scope.loopindex(), " == 0)")
+		s.js("(", s.scope.loopindex(loopVar), " == 0)")
 	case "isLast":
-		s.js("(", s.scope.loopindex(), " == ", s.scope.looplimit(), " - 1)")
+		s.js("(", s.scope.loopindex(loopVar), " == ", s.scope.looplimit(loopVar), " - 1)")
 	case "index":
-		s.js(s.scope.loopindex())
+		s.js(s.scope.loopindex(loopVar))
 	default:
 		s.errorf("unimplemented function: %v", node.Name)
 	}
@@ -552,25 +556,40 @@ func (s *state) visitForRange(node *ast.ForNode) {
 		limit = rangeNode.Args[0]
 	}
 
-	var varIndex,
-		varLimit = s.scope.pushForRange(node.Var)
-	defer s.scope.pop()
+	// the bounds are translated before the loop variable is in scope
+	var varItem, varInit, varLimit, varInc, varIndex, varCount = s.scope.namesForRange(node.Var)
+	s.jsln("var ", varInit, " = ", init, ";")
 	s.jsln("var ", varLimit, " = ", limit, ";")
-	s.jsln("for (var ", varIndex, " = ", init, "; ",
-		varIndex, " < ", varLimit, "; ",
-		varIndex, " += ", increment, ") {")
+	s.jsln("var ", varInc, " = ", increment, ";")
+	s.jsln("var ", varCount, " = ", varLimit, " > ", varInit, " ? Math.ceil((", varLimit, " - ", varInit, ") / ", varInc, ") : 0;")
+	if node.IfEmpty != nil {
+		s.jsln("if (", varCount, " > 0) {")
+		s.indentLevels++
+	}
+	s.jsln("for (var ", varIndex, " = 0; ", varIndex, " < ", varCount, "; ", varIndex, "++) {")
 	s.indentLevels++
+	s.jsln("var ", varItem, " = ", varInit, " + ", varIndex, " * ", varInc, ";")
+	s.scope.pushLoop(node.Var, varItem, varIndex, varCount)
 	s.walk(node.Body)
+	s.scope.pop()
 	s.indentLevels--
 	s.jsln("}")
+	if node.IfEmpty != nil {
+		s.indentLevels--
+		s.jsln("} else {")
+		s.indentLevels++
+		s.walk(node.IfEmpty)
+		s.indentLevels--
+		s.jsln("}")
+	}
 }
 
 func (s *state) visitForeach(node *ast.ForNode) {
+	// the list is translated before the loop variable is in scope
 	var itemData,
 		itemList,
 		itemListLen,
-		itemIndex = s.scope.pushForEach(node.Var)
-	defer s.scope.pop()
+		itemIndex = s.scope.namesForEach(node.Var)
 	s.jsln("var ", itemList, " = ", node.List, ";")
 	s.jsln("var ", itemListLen, " = ", itemList, ".length;")
 	if node.IfEmpty != nil {
@@ -580,7 +599,9 @@ func (s *state) visitForeach(node *ast.ForNode) {
 	s.jsln("for (var ", itemIndex, " = 0; ", itemIndex, " < ", itemListLen, "; ", itemIndex, "++) {")
 	s.indentLevels++
 	s.jsln("var ", itemData, " = ", itemList, "[", itemIndex, "];")
+	s.scope.pushLoop(node.Var, itemData, itemIndex, itemListLen)
 	s.walk(node.Body)
+	s.scope.pop()
 	s.indentLevels--
 	s.jsln("}")
 	if node.IfEmpty != nil {
